@@ -35,6 +35,29 @@ LastBreakEnd(t, n) ==
 RowOf(t, n) == 1 + Breaks(t, n)
 ColOf(t, n) == 1 + (n - LastBreakEnd(t, n))
 
+\* Run-compressed texts: a positive number n stands for n ordinary characters, 0 for CR, -1 for LF.
+\* Compress is the definition; AfterR is the position machine on the compressed form (C11 sends
+\* compressed texts; MC_Text checks AfterR(Compress(t), n) = After(t, n) for every small text).
+RECURSIVE Compress(_)
+Compress(t) ==
+  IF t = <<>> THEN <<>>
+  ELSE LET rest == Compress(Tail(t)) IN
+       IF Head(t) = CR THEN <<0>> \o rest
+       ELSE IF Head(t) = LF THEN <<-1>> \o rest
+       ELSE IF rest # <<>> /\ Head(rest) > 0 THEN <<Head(rest) + 1>> \o Tail(rest)
+       ELSE <<1>> \o rest
+RECURSIVE LenR(_)
+LenR(rt) == IF rt = <<>> THEN 0 ELSE (IF Head(rt) > 0 THEN Head(rt) ELSE 1) + LenR(Tail(rt))
+RECURSIVE WalkR(_, _, _, _)
+\* state after n more characters, starting before token i in state p
+WalkR(rt, i, n, p) ==
+  IF n = 0 \/ i > Len(rt) THEN p
+  ELSE IF rt[i] > 0 THEN
+         IF rt[i] >= n THEN [row |-> p.row, col |-> p.col + n, prevcr |-> FALSE]
+         ELSE WalkR(rt, i + 1, n - rt[i], [row |-> p.row, col |-> p.col + rt[i], prevcr |-> FALSE])
+  ELSE WalkR(rt, i + 1, n - 1, Consume(p, IF rt[i] = 0 THEN CR ELSE LF))
+AfterR(rt, n) == WalkR(rt, 1, n, Start)
+
 \* mutations of a token sequence
 Delete(s, i) == SubSeq(s, 1, i - 1) \o SubSeq(s, i + 1, Len(s))
 Duplicate(s, i) == SubSeq(s, 1, i) \o SubSeq(s, i, Len(s))
